@@ -50,7 +50,7 @@ func levelMatch(f, ch []string) bool {
 	return true
 }
 
-func newStore(kind string, retain uint32) (storage.Storage, func(), error) {
+func newStore(kind string, retain uint32) (storage.Storage, func(), func() (storage.Storage, error), error) {
 	cfg := map[string]interface{}{}
 	if retain != 0 {
 		cfg["retain"] = float64(retain)
@@ -59,30 +59,59 @@ func newStore(kind string, retain uint32) (storage.Storage, func(), error) {
 	case "inmemory":
 		s := storage.NewInMemory(nil)
 		if err := s.Configure(cfg); err != nil {
-			return nil, nil, err
+			return nil, nil, nil, err
 		}
-		return s, func() { s.Close() }, nil
+		return s, func() { s.Close() }, nil, nil
 	default:
 		d, err := os.MkdirTemp(os.Getenv("VERIF_SCRATCH"), "c06-")
 		if err != nil {
-			return nil, nil, err
+			return nil, nil, nil, err
 		}
-		s := storage.NewSSD(nil)
+		cur := storage.NewSSD(nil)
 		cfg["dir"] = d
-		if err := s.Configure(cfg); err != nil {
+		if err := cur.Configure(cfg); err != nil {
 			os.RemoveAll(d)
-			return nil, nil, err
+			return nil, nil, nil, err
 		}
-		return s, func() { s.Close(); os.RemoveAll(d) }, nil
+		// reopen: close the provider and open a new one on the same directory (a broker restart)
+		reopen := func() (storage.Storage, error) {
+			cur.Close()
+			cur = storage.NewSSD(nil)
+			if err := cur.Configure(cfg); err != nil {
+				return nil, err
+			}
+			return cur, nil
+		}
+		return cur, func() { cur.Close(); os.RemoveAll(d) }, reopen, nil
 	}
 }
+
+// edgeLevels are channel level names whose 32-bit hash has a low byte of 0xff / 0x00 (the last byte of a message id is the
+// low byte of the hash of the last level: continuation arithmetic on ids meets its carry cases there) - found by search.
+var edgeLevels = func() []string {
+	var ff, zz string
+	for i := 0; ff == "" || zz == ""; i++ {
+		n := fmt.Sprintf("e%d", i)
+		switch hash.OfString(n) & 0xff {
+		case 0xff:
+			if ff == "" {
+				ff = n
+			}
+		case 0x00:
+			if zz == "" {
+				zz = n
+			}
+		}
+	}
+	return []string{ff, zz}
+}()
 
 const replyCap = 65536
 
 func TestC06(t *testing.T) {
 	rec := vk.New("C06", "query")
 	defer rec.Finish(t)
-	rec.Rule("case = one store history (30-60 messages: two tenants whose contract^hash(level1) key prefixes collide, nested channels, many messages per second, live and expired, retained messages under a configured retention period, payloads that hit the 64 KiB reply cap) on a real provider (inmemory / ssd) " +
+	rec.Rule("case = one store history (40-80 messages, the disk provider closed and reopened on the same directory at seeded points, last levels whose hash ends in 0xff/0x00: two tenants whose contract^hash(level1) key prefixes collide, nested channels, many messages per second, live and expired, retained messages under a configured retention period, payloads that hit the 64 KiB reply cap) on a real provider (inmemory / ssd) " +
 		"followed by ~60 queries (filters shorter/longer than the channels, '+'/'#' levels, windows inside/overlapping/outside, limits 0,1,k,>stored,10^5, continuation driven to exhaustion); every returned frame is compared as a set with the model answer, " +
 		"its order checked for non-decreasing time, pages checked for disjointness and their union for equality with the un-paged answer; non-trivial = >=10 queries with a non-empty expected answer, >=1 query cut by the limit, >=1 paginated query; distinct = hash of stores and queries")
 	n := vk.N(120, 5000)
@@ -104,7 +133,7 @@ func runC06(rec *vk.Rec, ci int) {
 	if effRetain == 0 {
 		effRetain = 2592000
 	}
-	st, cleanup, err := newStore(kind, retain)
+	st, cleanup, reopen, err := newStore(kind, retain)
 	if err != nil {
 		rec.Inconclusive(err.Error())
 		return
@@ -121,18 +150,34 @@ func runC06(rec *vk.Rec, ci int) {
 		first string
 	}
 	tenants := []tenant{{c1, "a"}, {c2, "b"}, {c1, "c"}}
-	sub := []string{"x", "y", "z"}
+	sub := []string{"x", "y", "z", edgeLevels[0], edgeLevels[1]}
+	reopenAt := -1
+	if reopen != nil && r.Chance(70) {
+		reopenAt = r.Range(10, 30) // the disk provider is closed and reopened after this many stores
+	}
 	var log []*stored
 	var desc []string
-	nst := r.Range(30, 60)
+	nst := r.Range(40, 80)
 	baseT := now - int64(r.Range(3000, 20000))
 	for i := 0; i < nst; i++ {
+		if i == reopenAt {
+			if st, err = reopen(); err != nil {
+				rec.Violation(ci, "store-does-not-reopen", err.Error(), map[string]interface{}{"stores": desc})
+				return
+			}
+			desc = append(desc, "close and reopen the provider on the same directory")
+			rec.Inc("reopens")
+		}
 		tn := tenants[r.Intn(10)%3]
 		if r.Chance(70) {
 			tn = tenants[r.Intn(2)]
 		}
 		lv := []string{tn.first}
 		for d := r.Intn(3); d > 0; d-- {
+			if d == 1 && r.Chance(35) { // last level: a name whose hash ends in 0xff / 0x00
+				lv = append(lv, edgeLevels[r.Intn(2)])
+				continue
+			}
 			lv = append(lv, sub[r.Intn(len(sub))])
 		}
 		tm := baseT + int64(r.Intn(6)) // many messages within one second
@@ -187,6 +232,14 @@ func runC06(rec *vk.Rec, ci int) {
 		}
 		desc = append(desc, fmt.Sprintf("store c=%x %s t=now%+d ttl=%d retained=%v size=%d live=%v", tn.c, s.channel, tm-now, ttl, storeTTL == message.RetainedTTL, size, live))
 		rec.Inc("stores")
+	}
+	if reopen != nil && r.Chance(40) {
+		if st, err = reopen(); err != nil {
+			rec.Violation(ci, "store-does-not-reopen", err.Error(), map[string]interface{}{"stores": desc})
+			return
+		}
+		desc = append(desc, "close and reopen the provider on the same directory (before the queries)")
+		rec.Inc("reopens")
 	}
 	// model answer
 	answer := func(contract uint32, f []string, from, until int64, cont message.ID, limit int) []*stored {
@@ -278,7 +331,8 @@ func runC06(rec *vk.Rec, ci int) {
 	nonEmpty, cut, paged := 0, 0, 0
 	var qdesc []string
 	filtersFor := func(tn tenant) [][]string {
-		return [][]string{{tn.first}, {tn.first, "x"}, {tn.first, "+"}, {tn.first, "x", "y"}, {tn.first, "+", "z"}, {tn.first, "#"}, {tn.first, "y", "+", "x"}, {tn.first, "+", "+"}, {tn.first, "q"}}
+		return [][]string{{tn.first}, {tn.first, "x"}, {tn.first, "+"}, {tn.first, "x", "y"}, {tn.first, "+", "z"}, {tn.first, "#"}, {tn.first, "y", "+", "x"}, {tn.first, "+", "+"}, {tn.first, "q"},
+			{tn.first, edgeLevels[0]}, {tn.first, "+", edgeLevels[0]}, {tn.first, edgeLevels[1]}, {tn.first, "x", edgeLevels[1]}, {tn.first, edgeLevels[0], "+"}}
 	}
 	for qi := 0; qi < 60 && !violated; qi++ {
 		tn := tenants[r.Intn(len(tenants))]
